@@ -17,6 +17,8 @@
  *   chgpath t<k> <hex path> <hex value>    lyd_change_term; rc
  *   move t<k> <hex path> <hex anchor path> <c|s>     lyd_unlink_tree(node); lyd_insert_child/sibling(anchor, node); rc
  *   dupins t<k> <hex path> <hex anchor path> <c|s>   lyd_dup_single(node) + insert; rc
+ *   newterm t<k> <hex parent path|-> <name> <hex value>   lyd_new_term (no look for an existing instance; - = top level); rc
+ *   newlist t<k> <hex parent path|-> <name> <hex key predicates>   lyd_new_list2; rc
  *   rt t<src> t<dst> <x|j|b> <print opts> <parse opts> <val opts>   lyd_print_mem(src), lyd_parse_data of the text; VERDICT
  *                                          ("P<rc>" when printing fails); b = LYB
  *   free t<k>
@@ -415,6 +417,38 @@ run_cmd(char *cmd, struct sbuf *o)
         }
         free(p);
         free(a);
+    } else if (!strcmp(w[0], "newterm") || !strcmp(w[0], "newlist")) {
+        NEED(5);
+        int t = slot_t(w[1]);
+        char *pp = arg_str(w[2]), *v = arg_str(w[4]);
+        struct lyd_node *parent = NULL, *node = NULL, *first = NULL;
+        LY_ERR rc = LY_SUCCESS;
+
+        if (strcmp(w[2], "-") && (lyd_find_path(T[t], pp, 0, &parent) || !parent)) {
+            sb_str(o, "-");
+        } else {
+            if (w[0][3] == 't') {
+                rc = lyd_new_term(parent, parent ? NULL : M, w[3], v, 0, &node);
+            } else {
+                rc = lyd_new_list2(parent, parent ? NULL : M, w[3], v, 0, &node);
+            }
+            if (!rc && !parent && node) {
+                if (T[t]) {
+                    rc = lyd_insert_sibling(T[t], node, &first);
+                    if (rc) {
+                        lyd_free_tree(node);
+                    } else {
+                        T[t] = first;
+                    }
+                } else {
+                    T[t] = node;
+                }
+            }
+            fix_first(t);
+            sb_fmt(o, "%d", (int)rc);
+        }
+        free(pp);
+        free(v);
     } else if (!strcmp(w[0], "rt")) {
         NEED(7);
         int t = slot_t(w[2]);
